@@ -623,7 +623,8 @@ func main() {
 	for _, l := range reportLines {
 		fmt.Println(l)
 	}
-	if dn < 2 {
+	if dn < 2 && exit == 0 {
+		// a pass that explored nothing is no pass; a violation that was found and replayed stands on its own
 		die(2, "fewer than 2 distinct non-trivial cases explored")
 	}
 	cleanup()
